@@ -44,7 +44,11 @@ def node_part(res, rng, inputs):
         own = comp.rand_id(r)
         naddr = nodegen.addr_in_family(r, v6, 1)
         sc.add("seed %d" % r.below(1 << 30))
-        sc.add("latency %d %d" % (1 * MS, 5 * MS))
+        if k % 2 == 1:
+            sc.add("latency %d %d" % (2 * MS, 2 * MS))
+            sc.add("dup 500")        # datagrams (also the answers to the node's own bootstrap queries) arrive twice, back to back
+        else:
+            sc.add("latency %d %d" % (1 * MS, 5 * MS))
         ra = nodegen.addr_in_family(r, v6, 100)
         rid = comp.rand_id(r)
         sc.add_resp("r0", ra, rid, "normal")
